@@ -55,6 +55,9 @@ pub fn gen_case(seed: u64, idx: usize) -> Case {
     }
     let mut lines = gen::generate(&mut rng, &gp);
     let _ = gen::add_byte_features(&mut lines, &mut rng);
+    if rng.chance(1, 3) {
+        let _ = gen::add_git_colors(&mut lines, &mut rng);
+    }
     // delivery schedule: 1 byte .. 4 KiB, with Interrupted sprinkled in
     let style = rng.below(6);
     let n = rng.range(1, 12);
@@ -88,6 +91,10 @@ pub fn gen_case(seed: u64, idx: usize) -> Case {
 pub fn to_word_diff(case: &mut Case) {
     case.opts.args.retain(|a| a != "--color-only");
     for l in case.lines.iter_mut() {
+        // this pass builds its own lines: start from the undecorated text
+        if l.text.contains('\x1b') {
+            l.text = String::from_utf8_lossy(&simcore::text::strip_ansi(l.text.as_bytes())).to_string();
+        }
         match l.kind {
             LineKind::Minus | LineKind::Plus | LineKind::Context => {
                 let body: String = l.text.chars().skip(1).collect();
@@ -125,6 +132,10 @@ pub fn check_case(case: &Case) -> (Vec<Violation>, CaseStats) {
         }
         Err(p) => {
             eprintln!("NOTE: incidental panic in a fault-free run (not a C11 matter): {}", p.lines().next().unwrap_or(""));
+            if let Ok(dir) = std::env::var("DELTASIM_DUMP_PANICS") {
+                let name = format!("{}/panic-{:016x}.json", dir, simcore::rng::fnv64(&data));
+                let _ = std::fs::write(name, serde_json::to_string(&json!({"args": case.opts.args, "input": String::from_utf8_lossy(&data), "hex": data.iter().map(|b| format!("{:02x}", b)).collect::<String>()})).unwrap_or_default());
+            }
             stats.panics += 1;
             return (out, stats);
         }
